@@ -66,28 +66,22 @@ func (self *Compiler) relocateLabels() {
 func (self *Compiler) renameVariables() {
 	slot := make(map[string]int64, 0)
 
-	for _, module := range self.modules {
-		for name, fn := range module {
-			cnt := 0
-			for idx, inst := range fn.Instructions {
-				switch inst.Opcode() {
-				case Opcode_GetVarImm:
-					i := inst.(OneStringInstruction)
-					if _, found := slot[i.Value]; !found {
-						slot[i.Value] = int64(cnt)
-						cnt++
-					}
-					module[name].Instructions[idx] = newOneIntInstruction(Opcode_GetVarImm, slot[i.Value])
-				case Opcode_SetVarImm:
-					i := inst.(OneStringInstruction)
-					if _, found := slot[i.Value]; !found {
-						slot[i.Value] = int64(cnt)
-						cnt++
-					}
-					module[name].Instructions[idx] = newOneIntInstruction(Opcode_SetVarImm, slot[i.Value])
-				default:
-					continue
+	// A function literal refers to the variables of its enclosing functions by their slots:
+	// those functions must be numbered before it, not in the iteration order of a map.
+	for _, key := range self.fnOrder {
+		fn := self.modules[key.module][key.ident]
+		cnt := 0
+		for idx, inst := range fn.Instructions {
+			switch inst.Opcode() {
+			case Opcode_GetVarImm, Opcode_SetVarImm:
+				i := inst.(OneStringInstruction)
+				if _, found := slot[i.Value]; !found {
+					slot[i.Value] = int64(cnt)
+					cnt++
 				}
+				fn.Instructions[idx] = newOneIntInstruction(inst.Opcode(), slot[i.Value])
+			default:
+				continue
 			}
 		}
 	}
